@@ -237,8 +237,7 @@ def helper_forms(check, P):
         else:
             check.violation("R1", f"to_absolute_list:{mode}", f"to_absolute_list in {mode} mode returns {got}, expected {[t1, t2]}", [decisions_text(path, 14)])
     I.default_fact = None
-    if n < 100:
-        raise AnalysisError(f"C01.R1: only {n} helper paths (floor 100)")
+    check.floor(not (n < 100), f"C01.R1: only {n} helper paths (floor 100)")
     return n
 
 
@@ -271,8 +270,7 @@ def run(check, repo, tier):
             check.sample({"command": r["command"], "context": r["ctx"], "abstract_paths": r["paths"], "example": oks[:1]})
             motion_cmds.add(r["command"])
     for rid, floor in (("R3", 1000), ("R4", 1000), ("R5", 1000)):
-        if counts.get(rid, 0) < floor:
-            raise AnalysisError(f"C01.{rid}: only {counts.get(rid, 0)} obligations decided (floor {floor})")
+        check.floor(not (counts.get(rid, 0) < floor), f"C01.{rid}: only {counts.get(rid, 0)} obligations decided (floor {floor})")
     n1 = helper_forms(check, cr.program)
     check.analysed = dict(cr.stats, helper_paths=n1)
     check.coverage["exhaustive"] = tier == "thorough"
